@@ -319,9 +319,59 @@ def run_name_case(case):
     return out
 
 
+def run_reindex_case(case):
+    """Labels are resolved against the span the object has NOW: look a label up, reindex onto a shifted / reordered span of
+    the same type, and every label of the new span addresses its own position (kept value or fill) on the result, while the
+    original still resolves against the old span."""
+    kind, n, obj = case['span'], case['n'], case['obj']
+    c, labels = make(kind, n, obj)
+    out = []
+    for lab in labels:
+        c['Y', lab]                      # warm whatever the object may remember about its span
+    c['K', labels[0]:labels[-1]] = 3
+    span2, labels2 = spans.make(kind, n)
+    order = list(range(n))[::-1] if case['how'] == 'reversed' else (list(range(1, n)) + [0])
+    try:
+        if hasattr(span2, 'take'):
+            new_span = span2.take(order)
+        elif isinstance(span2, np.ndarray):
+            new_span = span2[order]
+        else:
+            new_span = type(span2)([labels2[i] for i in order]) if not isinstance(span2, range) else [labels2[i] for i in order]
+    except Exception:
+        return out
+    try:
+        r = c.reindex(new_span)
+    except Exception as e:
+        return [('after-reindex:exception:%s' % type(e).__name__, 'a reindexed object', repr(e)[:160], 'reindex onto a permutation of the span raised')]
+    new_labels = list(new_span)
+    for j, lab in enumerate(new_labels):
+        want = c['Y'][labels.index(lab)]
+        try:
+            got = r['Y', lab]
+        except Exception as e:
+            got = e
+        if isinstance(got, Exception) or not same(got, want) or not same(r['Y'][j], want):
+            out.append(('after-reindex:label', float(want), repr(got)[:80], 'on the reindexed object the label %r does not address its position %d' % (lab, j)))
+            break
+    if not out:
+        for i, lab in enumerate(labels):
+            if not same(c['Y', lab], c['Y'][i]):
+                out.append(('after-reindex:original', float(c['Y'][i]), repr(c['Y', lab])[:80], 'the original resolves labels differently after it was reindexed'))
+                break
+    return out
+
+
 def run_block(block, tier, seed):
     acc = Acc()
     kind, n, obj = block['span'], block['n'], block['obj']
+    if n >= 2 and not any(x is None for x in spans.make(kind, n)[1]):
+        for how in ('reversed', 'rotated'):
+            case = dict(kind='reindex', span=kind, n=n, obj=obj, how=how)
+            acc.evaluations += 1
+            acc.nontrivial += 1
+            for key, exp, obs, what in safe(run_reindex_case, case, acc):
+                acc.violation(key + ':' + kind, case, exp, obs, what)
     if n == 3:
         for name in ATTR_NAMES:
             for i in range(n):
@@ -373,7 +423,7 @@ def safe(fn, case, acc):
 
 
 def run_one(case):
-    fn = {'label': run_label_case, 'slice': run_slice_case, 'path': run_path_case, 'name': run_name_case}[case['kind']]
+    fn = {'label': run_label_case, 'slice': run_slice_case, 'path': run_path_case, 'name': run_name_case, 'reindex': run_reindex_case}[case['kind']]
     try:
         return fn(case)
     except Exception as e:
